@@ -283,9 +283,9 @@ Fixpoint run (fuel : nat) (cfg : config) (p : pc) (s : bst) : list bev * (pc * b
            let (e2, fin) := run f cfg p1 s1 in (e ++ e2, fin)
   end.
 
-(* enough fuel for any script: every step decreases  9 * |script| + (a local rank below 9), see
+(* enough fuel for any script: every step decreases  8 * |script| + (a local rank below 8), see
    BackoffProofs.run_script_done *)
-Definition fuel_for (script : list outcome) : nat := 9 * length script + 10.
+Definition fuel_for (script : list outcome) : nat := 8 * length script + 9.
 
 Definition run_script (cfg : config) (t0 : Z) (script : list outcome) : list bev * (pc * bst) :=
   run (fuel_for script) cfg PcFirst (binit t0 script).
